@@ -10,7 +10,7 @@ import (
 func Setup_C06_schedules() { Setup_C01_exec() }
 
 // families with real fan-out: several resolver-backed siblings and lists
-var c06Families = []int{3, 4, 5, 7, 9}
+var c06Families = []int{3, 4, 5, 7, 10, 11}
 
 // Harness_C06_schedules: the schedule is explored by the engine (every
 // choice among enabled tasks at a blocking point is a decision); on each
